@@ -383,9 +383,11 @@ func (s *stdSvc) runRequestJournal(test string, rc relayCase, desc func(mOutcome
 		if (before == nil) != (after == nil) || (before != nil && *before != *after) {
 			res.Pushed = append(res.Pushed, before)
 		}
-		// a hop written as a name whose address (but not the name) is known, or the
-		// other way round: the statement does not say which counts - both admissible
-		if !isIPv4Literal(hopHost) {
+		// a hop written as a name that was never learned itself while the address it
+		// resolves to was: the statement does not say which counts - both admissible.
+		// (A name that was itself listed in a Via or otherwise learned is learned,
+		// whatever is known about its address.)
+		if !isIPv4Literal(hopHost) && after == nil {
 			if ip, ok := s.model.cfg.resolve(hopHost); ok {
 				alt := s.model.learned[ip]
 				if (alt == nil) != (after == nil) || (alt != nil && *alt != *after) {
